@@ -33,20 +33,24 @@ print("demo without change:", "passes (expected)" if r.returncode == 0 else "FAI
 sh(["git", "clean", "-fdxq"], wt)
 ok = meta["suite_passes_with_change"] and meta["demo_fails_with_change"] and meta["demo_passes_without_change"]
 # 2. our checks against /repo with the change
+EVAL = os.environ.get("SEEDED_EVAL_REPO", "/repo")  # /repo itself, or a scratch worktree of its HEAD
 if ok:
-    r = sh(["git", "apply", patch], "/repo")
+    r = sh(["git", "apply", patch], EVAL)
     assert r.returncode == 0, r.stderr
+    cenv = dict(os.environ)
+    if EVAL != "/repo":
+        cenv.update(VERIF_REPO=EVAL, VERIF_EVIDENCE_DIR=EVAL + ".evidence", VERIF_REPLAY_DIR=EVAL + ".replays")
     try:
         for c in checks:
             for tier in ["quick", "thorough"]:
-                r = subprocess.run(["/verif/check", c, tier], capture_output=True, text=True, timeout=3600)
+                r = subprocess.run(["/verif/check", c, tier], capture_output=True, text=True, timeout=3600, env=cenv)
                 lines = [l for l in r.stdout.splitlines() if l.startswith(("VIOLATION", "  harness", "KNOWN", "INCONCLUSIVE", "ENCODER", "INCOMPLETE", "property="))]
                 meta["checks_run"]["%s %s" % (c, tier)] = {"exit": r.returncode, "lines": lines[:12]}
                 print("check %s %s: exit %d" % (c, tier, r.returncode)); print("\n".join("   " + l for l in lines[:12]))
                 if r.returncode == 1:
                     break
     finally:
-        sh(["git", "checkout", "--", "."], "/repo")
+        sh(["git", "checkout", "--", "."], EVAL)
 meta["detected_by"] = [k for k, v in meta["checks_run"].items() if v["exit"] == 1]
 dst = "/verif/seeded/%s-%s" % (prop, n)
 if ok:
@@ -56,6 +60,6 @@ if ok:
         shutil.copy(d, os.path.join(dst, os.path.basename(d).replace("_test.go", "_test.go.txt")))
     if os.path.exists(os.path.join(out, "notes.md")):
         shutil.copy(os.path.join(out, "notes.md"), dst)
-    meta["what_i_ran"] = "git apply patch.diff in a scratch worktree; go test -vet=off -count=1 ./... (suite passes); go test -run TestDemo with the change (fails) and without (passes); then git -C /repo apply, /verif/check <prop> quick|thorough, git -C /repo checkout -- ."
+    meta["what_i_ran"] = "git apply patch.diff in a scratch worktree; go test -vet=off -count=1 ./... (suite passes); go test -run TestDemo with the change (fails) and without (passes); then git apply to /repo (or to a scratch worktree of /repo HEAD given to the check through VERIF_REPO), /verif/check <prop> quick|thorough, git checkout -- ."
     json.dump(meta, open(os.path.join(dst, "meta.json"), "w"), indent=1)
 print("KEPT" if ok else "REJECTED", dst, "detected_by:", meta["detected_by"])
